@@ -329,6 +329,19 @@ func run(prop, tier string) int {
 	}
 	sd := seed()
 	work := filepath.Join(root, ".work", prop)
+	evidencePath := filepath.Join(root, "evidence", prop+".json")
+	replayDir := "replays"
+	if os.Getenv("VERIF_REPO") != "" {
+		// mutant / seeded-change campaign against a scratch copy of the repository:
+		// private work directory, and neither evidence/ nor replays/ of the real tree are touched
+		tag := os.Getenv("VERIF_WORKTAG")
+		if tag == "" {
+			tag = "alt"
+		}
+		work = filepath.Join(root, ".work", prop+"-"+tag)
+		evidencePath = filepath.Join(work, "evidence-"+prop+".json")
+		replayDir = filepath.Join(".work", prop+"-"+tag, "replays")
+	}
 	os.RemoveAll(work)
 	if err := os.MkdirAll(work, 0o755); err != nil {
 		fmt.Fprintln(os.Stderr, err)
@@ -586,14 +599,14 @@ func run(prop, tier string) int {
 		"wall_s":      time.Since(start).Seconds(),
 		"violations":  len(violations),
 	}
-	if err := writeJSON(filepath.Join(root, "evidence", prop+".json"), ev); err != nil {
+	if err := writeJSON(evidencePath, ev); err != nil {
 		fmt.Fprintln(os.Stderr, err)
 		return 2
 	}
 
 	// 6. verdict
 	if len(violations) > 0 {
-		os.MkdirAll(filepath.Join(root, "replays"), 0o755)
+		os.MkdirAll(filepath.Join(root, replayDir), 0o755)
 		seen := map[string]bool{}
 		for _, v := range violations {
 			dst := v
@@ -602,7 +615,7 @@ func run(prop, tier string) int {
 				if err != nil {
 					continue
 				}
-				dst = filepath.Join("replays", fmt.Sprintf("%s-%016x.json", prop, fnv64(b)))
+				dst = filepath.Join(replayDir, fmt.Sprintf("%s-%016x.json", prop, fnv64(b)))
 				_ = os.WriteFile(filepath.Join(root, dst), b, 0o644)
 			}
 			if seen[dst] {
